@@ -34,6 +34,10 @@ const (
 	VList   // an immutable table (package-level composite literal of constants)
 	VStruct // an immutable record inside such a table (fields in F)
 	VUnk    // an unknown scalar (scanner positions, raw input): arithmetic yields unknown, any test on it is undecided
+	VBits   // an integer some of whose bits are symbolic receiver bits (B, LSB first); see hybrid.go
+	VMap    // an immutable map with string keys (package-level table): entries in F
+	VFieldPtr // pointer to receiver byte I (hybrid runs)
+	VVarPtr   // pointer to a local variable (hybrid runs)
 )
 
 type Val struct {
@@ -43,6 +47,14 @@ type Val struct {
 	R *big.Rat
 	T []Val
 	F map[string]Val
+	B []Bit
+	// VVarPtr: pointer to a local variable of an enclosing evaluation frame
+	cell *varCell
+}
+
+type varCell struct {
+	env *cEnv
+	obj types.Object
 }
 
 func (v Val) String() string {
@@ -107,6 +119,8 @@ type cEnv struct {
 	// ratArith permits exact rational + - * (used only on one-decimal table
 	// values: differences of MacroVector scores)
 	ratArith bool
+	// sym: the receiver's bytes as symbolic bits (hybrid.go); nil = concrete bytes
+	sym *symState
 }
 
 func newCEnv(p *Pkg, bytes []uint8) *cEnv {
@@ -115,7 +129,7 @@ func newCEnv(p *Pkg, bytes []uint8) *cEnv {
 }
 
 func (e *cEnv) child() *cEnv {
-	return &cEnv{p: e.p, bytes: e.bytes, vars: map[types.Object]Val{}, hook: e.hook, depth: e.depth + 1, steps: e.steps, ratArith: e.ratArith, loops: e.loops}
+	return &cEnv{p: e.p, bytes: e.bytes, vars: map[types.Object]Val{}, hook: e.hook, depth: e.depth + 1, steps: e.steps, ratArith: e.ratArith, loops: e.loops, sym: e.sym}
 }
 
 // bytesFromCodes assembles receiver bytes from metric codes through Set's
@@ -188,13 +202,19 @@ func wrapInt(t types.Type, i int64) int64 {
 
 // callFunc interprets a call of a function declared in the package.
 func (e *cEnv) callFunc(fd *ast.FuncDecl, args []Val, at ast.Node) (Val, error) {
-	if e.depth > 12 {
+	return e.child().callFuncIn(fd, args, at)
+}
+
+// callFuncIn runs fd in the receiver environment c (already a fresh child,
+// possibly with the method's receiver bound).
+func (c *cEnv) callFuncIn(fd *ast.FuncDecl, args []Val, at ast.Node) (Val, error) {
+	e := c
+	if e.depth > 13 {
 		return Val{}, undecidedf(at, "call depth exceeded")
 	}
 	if fd.Body == nil {
 		return Val{}, undecidedf(at, "function without body")
 	}
-	c := e.child()
 	params := paramObjs(e.p.Info, fd)
 	if len(params) != len(args) {
 		return Val{}, undecidedf(at, "arity mismatch calling %s", fd.Name.Name)
@@ -259,8 +279,36 @@ func (e *cEnv) assign(lhs ast.Expr, v Val, define bool) error {
 		if v.K == VInt {
 			v.I = wrapInt(obj.Type(), v.I)
 		}
+		if v.K == VBits {
+			v = resizeBits(v, intWidth(obj.Type()))
+		}
 		e.vars[obj] = v
 		return nil
+	}
+	if pe, ok := lhs.(*ast.ParenExpr); ok {
+		return e.assign(pe.X, v, define)
+	}
+	if idx, _, ok := e.p.fieldOf(lhs); ok && e.sym != nil {
+		return e.sym.write(idx, v, lhs)
+	}
+	if st, ok := lhs.(*ast.StarExpr); ok && e.sym != nil {
+		pv, err := e.eval(st.X)
+		if err != nil {
+			return err
+		}
+		if pv.K == VFieldPtr {
+			return e.sym.write(int(pv.I), v, lhs)
+		}
+		if pv.K == VVarPtr {
+			if v.K == VInt {
+				v.I = wrapInt(pv.cell.obj.Type(), v.I)
+			}
+			if v.K == VBits {
+				v = resizeBits(v, intWidth(pv.cell.obj.Type()))
+			}
+			pv.cell.env.vars[pv.cell.obj] = v
+			return nil
+		}
 	}
 	return undecidedf(lhs, "assignment target outside the fragment language")
 }
@@ -312,6 +360,28 @@ func (e *cEnv) exec(s ast.Stmt) (ctrl, Val, error) {
 		return cNext, Val{}, nil
 	case *ast.AssignStmt:
 		if st.Tok == token.DEFINE || st.Tok == token.ASSIGN {
+			if len(st.Rhs) == 1 && len(st.Lhs) == 2 {
+				// v, ok := table[key]
+				if ix, isIx := st.Rhs[0].(*ast.IndexExpr); isIx {
+					if m, err := e.eval(ix.X); err == nil && m.K == VMap {
+						k, err := e.eval(ix.Index)
+						if err != nil {
+							return cNext, Val{}, err
+						}
+						if k.K != VStr {
+							return cNext, Val{}, undecidedf(s, "map key is not a string")
+						}
+						ev, found := m.F[k.S]
+						if !found && len(m.T) == 1 {
+							ev = m.T[0]
+						}
+						if err := e.assign(st.Lhs[0], ev, st.Tok == token.DEFINE); err != nil {
+							return cNext, Val{}, err
+						}
+						return cNext, Val{}, e.assign(st.Lhs[1], vBool(found), st.Tok == token.DEFINE)
+					}
+				}
+			}
 			if len(st.Rhs) == 1 && len(st.Lhs) > 1 {
 				v, err := e.eval(st.Rhs[0])
 				if err != nil {
@@ -585,6 +655,13 @@ func (e *cEnv) exec(s ast.Stmt) (ctrl, Val, error) {
 }
 
 func valEq(a, b Val, at ast.Node) (bool, error) {
+	if a.K == VBits || b.K == VBits {
+		v, err := bitsBinop(token.EQL, a, b, nil, at)
+		if err != nil {
+			return false, err
+		}
+		return v.I != 0, nil
+	}
 	switch {
 	case a.K == VInt && b.K == VInt, a.K == VBool && b.K == VBool:
 		return a.I == b.I, nil
@@ -597,6 +674,8 @@ func valEq(a, b Val, at ast.Node) (bool, error) {
 	case a.K == VNil && b.K == VNil:
 		return true, nil
 	case (a.K == VNil && b.K == VOpaque) || (a.K == VOpaque && b.K == VNil):
+		return false, nil
+	case (a.K == VNil && (b.K == VStruct || b.K == VList || b.K == VFieldPtr || b.K == VMap)) || (b.K == VNil && (a.K == VStruct || a.K == VList || a.K == VFieldPtr || a.K == VMap)):
 		return false, nil
 	case a.K == VRat && b.K == VInt:
 		return a.R.Cmp(new(big.Rat).SetInt64(b.I)) == 0, nil
@@ -636,6 +715,9 @@ func constVal(tv types.TypeAndValue) (Val, bool) {
 }
 
 func (e *cEnv) binop(op token.Token, a, b Val, t types.Type, at ast.Node) (Val, error) {
+	if a.K == VBits || b.K == VBits {
+		return bitsBinop(op, a, b, t, at)
+	}
 	switch op {
 	case token.EQL, token.NEQ:
 		eq, err := valEq(a, b, at)
@@ -811,7 +893,12 @@ func (e *cEnv) eval(x ast.Expr) (Val, error) {
 			// package-level table of constants (never written: R14.globals)
 			_, isSlice := pv.Type().Underlying().(*types.Slice)
 			_, isArray := pv.Type().Underlying().(*types.Array)
-			if isSlice || isArray {
+			_, isMap := pv.Type().Underlying().(*types.Map)
+			_, isStruct := pv.Type().Underlying().(*types.Struct)
+			if (isSlice || isArray || isMap || isStruct) && e.p.pkgVarWritten(pv) {
+				return Val{}, undecidedf(x, "package-level table %s is written after its declaration (filled in at init time?): its contents are not constants", n.Name)
+			}
+			if isSlice || isArray || isMap || isStruct {
 				if init := e.p.pkgVarInit(pv); init != nil {
 					if lv, ok := e.p.listValue(init); ok {
 						return lv, nil
@@ -824,6 +911,9 @@ func (e *cEnv) eval(x ast.Expr) (Val, error) {
 		return Val{}, undecidedf(x, "identifier %s has no value in the fragment", n.Name)
 	case *ast.SelectorExpr:
 		if idx, _, ok := e.p.fieldOf(n); ok {
+			if e.sym != nil {
+				return e.sym.read(idx), nil
+			}
 			if e.bytes == nil {
 				return Val{}, undecidedf(x, "receiver byte read without a byte model")
 			}
@@ -846,10 +936,35 @@ func (e *cEnv) eval(x ast.Expr) (Val, error) {
 		if n.Op == token.AND {
 			// &T{...} error objects, &obj
 			if _, ok := n.X.(*ast.CompositeLit); ok {
+				if e.sym != nil {
+					// hybrid runs keep the literal's fields (typed errors are inspected)
+					if v, err := e.eval(n.X); err == nil && v.K == VStruct {
+						v.I = 1 // a pointer to the record
+						return v, nil
+					}
+				}
 				return Val{K: VOpaque, S: types.ExprString(n.X)}, nil
 			}
 			if tv, ok := info.Types[n.X]; ok && e.p.isTPtrOrVal(tv.Type) {
 				return Val{K: VOpaque, S: "obj"}, nil
+			}
+			if idx, _, ok := e.p.fieldOf(n.X); ok && e.sym != nil {
+				// pointer to a receiver byte
+				return Val{K: VFieldPtr, I: int64(idx)}, nil
+			}
+			if id, ok := n.X.(*ast.Ident); ok && e.sym != nil {
+				if obj := info.Uses[id]; obj != nil {
+					if _, has := e.vars[obj]; has {
+						return Val{K: VVarPtr, cell: &varCell{env: e, obj: obj}}, nil
+					}
+				}
+			}
+			if e.sym != nil {
+				// pointer to an element of an immutable table: the element, marked non-nil
+				if v, err := e.eval(n.X); err == nil && (v.K == VStruct || v.K == VList) {
+					v.I = 1
+					return v, nil
+				}
 			}
 			return Val{}, undecidedf(x, "address-of outside the fragment language")
 		}
@@ -873,6 +988,13 @@ func (e *cEnv) eval(x ast.Expr) (Val, error) {
 				return a, nil
 			}
 		case token.XOR:
+			if a.K == VBits {
+				out := Val{K: VBits}
+				for _, b := range a.B {
+					out.B = append(out.B, bitNot(b))
+				}
+				return out, nil
+			}
 			if a.K == VInt {
 				r := ^a.I
 				if tv, ok := info.Types[x]; ok {
@@ -884,6 +1006,21 @@ func (e *cEnv) eval(x ast.Expr) (Val, error) {
 			return a, nil
 		}
 		return Val{}, undecidedf(x, "unary %s", n.Op)
+	case *ast.StarExpr:
+		v, err := e.eval(n.X)
+		if err != nil {
+			return Val{}, err
+		}
+		if v.K == VFieldPtr && e.sym != nil {
+			return e.sym.read(int(v.I)), nil
+		}
+		if v.K == VVarPtr {
+			return v.cell.env.vars[v.cell.obj], nil
+		}
+		if v.K == VStruct || v.K == VList {
+			return v, nil
+		}
+		return Val{}, undecidedf(x, "dereference outside the fragment language")
 	case *ast.BinaryExpr:
 		if n.Op == token.LAND || n.Op == token.LOR {
 			a, err := e.eval(n.X)
@@ -927,6 +1064,65 @@ func (e *cEnv) eval(x ast.Expr) (Val, error) {
 		if lv, ok := e.p.listValue(n); ok {
 			return lv, nil
 		}
+		if tv, ok := info.Types[n]; ok {
+			if st, ok := tv.Type.Underlying().(*types.Struct); ok {
+				// a record built from run-time values (typed errors)
+				out := Val{K: VStruct, F: map[string]Val{}}
+				if named, ok := tv.Type.(*types.Named); ok {
+					out.S = named.Obj().Name()
+				}
+				for i := 0; i < st.NumFields(); i++ {
+					out.F[st.Field(i).Name()] = zeroOf(st.Field(i).Type())
+				}
+				okAll := true
+				for i, el := range n.Elts {
+					name := ""
+					ve := el
+					if kv, isKV := el.(*ast.KeyValueExpr); isKV {
+						id, isID := kv.Key.(*ast.Ident)
+						if !isID {
+							okAll = false
+							break
+						}
+						name, ve = id.Name, kv.Value
+					} else if i < st.NumFields() {
+						name = st.Field(i).Name()
+					}
+					v, err := e.eval(ve)
+					if err != nil {
+						okAll = false
+						break
+					}
+					out.F[name] = v
+				}
+				if okAll {
+					return out, nil
+				}
+			}
+		}
+		if tv, ok := info.Types[n]; ok && e.sym != nil {
+			_, isArr := tv.Type.Underlying().(*types.Array)
+			_, isSl := tv.Type.Underlying().(*types.Slice)
+			if isArr || isSl {
+				out := Val{K: VList}
+				okAll := true
+				for _, el := range n.Elts {
+					if _, isKV := el.(*ast.KeyValueExpr); isKV {
+						okAll = false
+						break
+					}
+					v, err := e.eval(el)
+					if err != nil {
+						okAll = false
+						break
+					}
+					out.T = append(out.T, v)
+				}
+				if okAll {
+					return out, nil
+				}
+			}
+		}
 		return Val{K: VOpaque, S: types.ExprString(n)}, nil
 	case *ast.IndexExpr:
 		a, err := e.eval(n.X)
@@ -940,6 +1136,25 @@ func (e *cEnv) eval(x ast.Expr) (Val, error) {
 		if a.K == VUnk || (i.K == VUnk && a.K == VStr) {
 			// a byte of the raw input
 			return Val{K: VUnk}, nil
+		}
+		if i.K == VBits {
+			c, err := concretizeBits(i, n.Index)
+			if err != nil {
+				return Val{}, err
+			}
+			i = c
+		}
+		if a.K == VMap {
+			if i.K != VStr {
+				return Val{}, undecidedf(x, "map key is not a string")
+			}
+			if v, ok := a.F[i.S]; ok {
+				return v, nil
+			}
+			if len(a.T) == 1 {
+				return a.T[0], nil // zero value of the element type
+			}
+			return Val{}, undecidedf(x, "missing map entry")
 		}
 		if i.K != VInt {
 			return Val{}, undecidedf(x, "non-integer index")
@@ -1033,6 +1248,14 @@ func (e *cEnv) evalCall(n *ast.CallExpr) (Val, error) {
 			return Val{}, undecidedf(n, "conversion to %s", tv.Type)
 		}
 		switch {
+		case b.Info()&types.IsInteger != 0 && a.K == VBits:
+			return resizeBits(a, intWidth(tv.Type)), nil
+		case b.Info()&types.IsFloat != 0 && a.K == VBits:
+			c, err := concretizeBits(a, n)
+			if err != nil {
+				return Val{}, err
+			}
+			return Val{K: VRat, R: new(big.Rat).SetInt64(c.I)}, nil
 		case b.Info()&types.IsInteger != 0 && a.K == VInt:
 			return vInt(wrapInt(tv.Type, a.I)), nil
 		case b.Info()&types.IsFloat != 0 && a.K == VInt:
@@ -1122,7 +1345,20 @@ func (e *cEnv) evalCall(n *ast.CallExpr) (Val, error) {
 			return Val{}, undecidedf(n, "method value")
 		}
 		if tv, ok := info.Types[se.X]; !ok || !e.p.isTPtrOrVal(tv.Type) {
-			return Val{}, undecidedf(n, "method call on something other than the vector object")
+			// a method of a table record (descriptor): the receiver is a value
+			rv, err := e.eval(se.X)
+			if err != nil {
+				return Val{}, err
+			}
+			if rv.K != VStruct && rv.K != VList && rv.K != VInt && rv.K != VStr {
+				return Val{}, undecidedf(n, "method call on something other than the vector object or a table record")
+			}
+			ro := e.p.recvObj(fd)
+			c := e.child()
+			if ro != nil {
+				c.vars[ro] = rv
+			}
+			return c.callFuncIn(fd, args, n)
 		}
 	}
 	return e.callFunc(fd, args, n)
@@ -1201,6 +1437,36 @@ func exactConst(info *types.Info, x ast.Expr) (*big.Rat, bool) {
 // listValue converts a composite literal of constants (nested lists, arrays
 // and structs) into a VList / VStruct.
 func (p *Pkg) listValue(e ast.Expr) (Val, bool) {
+	return p.listValueDepth(e, 0)
+}
+
+func (p *Pkg) listValueDepth(e ast.Expr, depth int) (Val, bool) {
+	if depth > 6 {
+		return Val{}, false
+	}
+	if pe, ok := e.(*ast.ParenExpr); ok {
+		return p.listValueDepth(pe.X, depth)
+	}
+	// a reference to another package-level table
+	if id, ok := e.(*ast.Ident); ok {
+		if pv, isVar := p.Info.Uses[id].(*types.Var); isVar && pv.Parent() == p.P.Types.Scope() {
+			if p.pkgVarWritten(pv) {
+				return Val{}, false // filled in at init time: not a table of constants
+			}
+			if init := p.pkgVarInit(pv); init != nil {
+				return p.listValueDepth(init, depth+1)
+			}
+			return Val{}, false
+		}
+	}
+	// &T{…} inside a table: the record itself
+	if u, ok := e.(*ast.UnaryExpr); ok && u.Op == token.AND {
+		if v, ok := p.listValueDepth(u.X, depth+1); ok && v.K == VStruct {
+			v.I = 1
+			return v, true
+		}
+		return Val{}, false
+	}
 	cl, ok := e.(*ast.CompositeLit)
 	if !ok {
 		if tv, ok := p.Info.Types[e]; ok && tv.Value != nil {
@@ -1233,13 +1499,38 @@ func (p *Pkg) listValue(e ast.Expr) (Val, bool) {
 				} else if i < st.NumFields() {
 					name = st.Field(i).Name()
 				}
-				c, ok := p.listValue(v)
+				c, ok := p.listValueDepth(v, depth+1)
 				if !ok {
 					return Val{}, false
 				}
 				fields[name] = c
 			}
-			return Val{K: VStruct, F: fields}, true
+			name := ""
+			if named, ok := tv.Type.(*types.Named); ok {
+				name = named.Obj().Name()
+			}
+			return Val{K: VStruct, F: fields, S: name}, true
+		}
+	}
+	if hasT {
+		if mt, ok := tv.Type.Underlying().(*types.Map); ok {
+			out := Val{K: VMap, F: map[string]Val{}, T: []Val{zeroOf(mt.Elem())}}
+			for _, el := range cl.Elts {
+				kv, ok := el.(*ast.KeyValueExpr)
+				if !ok {
+					return Val{}, false
+				}
+				ks, ok := constString(p.Info, kv.Key)
+				if !ok {
+					return Val{}, false
+				}
+				v, ok := p.listValueDepth(kv.Value, depth+1)
+				if !ok {
+					return Val{}, false
+				}
+				out.F[ks] = v
+			}
+			return out, true
 		}
 	}
 	var out []Val
@@ -1267,7 +1558,7 @@ func (p *Pkg) listValue(e ast.Expr) (Val, bool) {
 			idx = int(k)
 			v = kv.Value
 		}
-		c, ok := p.listValue(v)
+		c, ok := p.listValueDepth(v, depth+1)
 		if !ok {
 			return Val{}, false
 		}
@@ -1336,4 +1627,68 @@ func stdlibSummary(fn *types.Func, args []Val, at ast.Node) (Val, bool, error) {
 		}
 	}
 	return Val{}, false, nil
+}
+
+// pkgVarWritten: some statement of the package assigns to the variable, to one
+// of its elements or fields (including init functions).
+func (p *Pkg) pkgVarWritten(v *types.Var) bool {
+	if p.varWritten == nil {
+		p.varWritten = map[*types.Var]bool{}
+		root := func(e ast.Expr) *types.Var {
+			for {
+				switch x := e.(type) {
+				case *ast.ParenExpr:
+					e = x.X
+				case *ast.IndexExpr:
+					e = x.X
+				case *ast.SelectorExpr:
+					if sel := p.Info.Selections[x]; sel != nil {
+						e = x.X
+						continue
+					}
+					return nil
+				case *ast.StarExpr:
+					e = x.X
+				case *ast.SliceExpr:
+					e = x.X
+				case *ast.Ident:
+					pv, _ := p.Info.Uses[x].(*types.Var)
+					if pv != nil && pv.Parent() == p.P.Types.Scope() {
+						return pv
+					}
+					return nil
+				default:
+					return nil
+				}
+			}
+		}
+		for _, f := range p.P.Syntax {
+			ast.Inspect(f, func(n ast.Node) bool {
+				switch st := n.(type) {
+				case *ast.AssignStmt:
+					for _, l := range st.Lhs {
+						if pv := root(l); pv != nil {
+							p.varWritten[pv] = true
+						}
+					}
+				case *ast.IncDecStmt:
+					if pv := root(st.X); pv != nil {
+						p.varWritten[pv] = true
+					}
+				case *ast.RangeStmt:
+					if st.Tok == token.ASSIGN {
+						for _, l := range []ast.Expr{st.Key, st.Value} {
+							if l != nil {
+								if pv := root(l); pv != nil {
+									p.varWritten[pv] = true
+								}
+							}
+						}
+					}
+				}
+				return true
+			})
+		}
+	}
+	return p.varWritten[v]
 }
